@@ -25,11 +25,11 @@ def run(prog, chk):
         "the LTR glyph set is classifyGlyphs(unicodeScriptDirection, whole cmap, compiled GSUB, designspace-rule substitutions) and classifyGlyphs closes each class together with the neutral glyphs (R18.5)",
     ]
     chk.not_decided += ["the values read back from the compiled GDEF/GPOS", "script direction data (unicodedata)"]
-    r181(prog, chk)
-    r182(prog, chk)
-    r183(prog, chk)
-    r184(prog, chk)
-    r185(prog, chk)
+    chk.guard(r181, prog, chk)
+    chk.guard(r182, prog, chk)
+    chk.guard(r183, prog, chk)
+    chk.guard(r184, prog, chk)
+    chk.guard(r185, prog, chk)
     from .rounding import check_no_truthiness_on_coordinates
     n = check_no_truthiness_on_coordinates(prog, chk, "R18.6", [GDEFW_MOD, CURS_MOD, "ufo2ft.featureWriters.baseFeatureWriter"])
     need(n >= 20, "truthiness scan found too few tests")
